@@ -330,6 +330,12 @@ def systems():
         (["x", "y"], [(S(x, n), S(y, m)), (y, n)]),
         (["x"], [(S(x, n), S(P(2, x), m))]),                        # unknown on both sides
         (["x", "y"], [(S(x, P(-1, y)), 0), (S(x, y), P(2, n))]),
+        # over-determined: the extra equation agrees / disagrees with the others only in its parameter part
+        (["x"], [(x, n), (x, m)]), (["x"], [(x, n), (x, n)]), (["x"], [(x, S(n, 1)), (P(2, x), S(P(2, n), 2))]),
+        (["x"], [(x, S(n, 1)), (P(2, x), S(P(2, m), 2))]), (["x", "y"], [(x, n), (y, m), (S(x, y), S(n, m))]),
+        (["x", "y"], [(x, n), (y, m), (S(x, y), S(n, n))]), (["x", "y"], [(x, n), (y, 2), (S(x, y), S(m, 2))]),
+        (["x", "y"], [(S(x, y), n), (S(x, P(-1, y)), m), (P(2, x), S(n, m)), (P(2, y), S(n, P(-1, m)))]),
+        (["x", "y"], [(S(x, y), n), (S(x, P(-1, y)), m), (P(2, x), S(n, m)), (P(2, y), S(n, m))]),
     ]
     return out
 
